@@ -11,6 +11,7 @@
 #include <boost/interprocess/file_mapping.hpp>
 #include <boost/interprocess/mapped_region.hpp>
 #include <rime/dict/mapped_file.h>
+#include <rime/verif_deploy_hooks.h>
 
 namespace rime {
 
@@ -55,21 +56,25 @@ bool MappedFile::Create(size_t capacity) {
   if (Exists()) {
     LOG(INFO) << "overwriting file '" << file_path_ << "'.";
     Resize(capacity);
+    RIME_VERIF_CRASHPOINT("MappedFile::Create:resized-existing");
   } else {
     LOG(INFO) << "creating file '" << file_path_ << "'.";
     std::filebuf fbuf;
     fbuf.open(file_path_.c_str(), std::ios_base::in | std::ios_base::out |
                                       std::ios_base::trunc |
                                       std::ios_base::binary);
+    RIME_VERIF_CRASHPOINT("MappedFile::Create:truncated-new");
     if (capacity > 0) {
       fbuf.pubseekoff(capacity - 1, std::ios_base::beg);
       fbuf.sputc(0);
     }
     fbuf.close();
+    RIME_VERIF_CRASHPOINT("MappedFile::Create:sized-new");
   }
   LOG(INFO) << "opening file for read/write access.";
   file_.reset(new MappedFileImpl(file_path_, MappedFileImpl::kOpenReadWrite));
   size_ = 0;
+  RIME_VERIF_CRASHPOINT("MappedFile::Create:mapped");
   return bool(file_);
 }
 
@@ -141,6 +146,7 @@ bool MappedFile::Resize(size_t capacity) {
   } catch (...) {
     return false;
   }
+  RIME_VERIF_CRASHPOINT("MappedFile::Resize:resized");
   return true;
 }
 
